@@ -37,8 +37,20 @@ def analyse(repo, q):
                 kw = dict(min_sites=gen) if fixed is None else dict(fixed_sites=fixed)
                 m = sw.SweepMachine(repo, fi, rep, **kw)
                 st = sw.State(Affine.const(-1), m.Lv, ZERO, m.Lv - ONE)
-                m.final = m.run(fi.node.body, st)
-                out.append((f'L >= {gen}' if fixed is None else f'L = {fixed}', m, rep))
+                label = f'L >= {gen}' if fixed is None else f'L = {fixed}'
+                try:
+                    m.final = m.run(fi.node.body, st)
+                except sw.EmptinessUndecided:
+                    raise
+                except AnalysisError as ex:
+                    # the walk could not be completed; if obligations already failed they are the finding
+                    if not any(not ok for _, _, ok, _ in rep.items):
+                        raise
+                    rep.add('slot', fi.node, False, f'the sweep could not be followed to its end after the failed '
+                                                    f'obligations above ({ex})')
+                    m.final = None
+                    m.partial = True
+                out.append((label, m, rep))
             break
         except sw.EmptinessUndecided:
             # a sweep loop may be empty for the smallest lattice of the general case: analyse that lattice
@@ -80,6 +92,8 @@ def schedule_rules(chk, repo, q, rid_budget=None, rid_pal=None):
     fi = repo.func(q)
     n = 0
     for label, m, rep in analyse(repo, q):
+        if getattr(m, 'partial', False):
+            continue        # the walk was abandoned after failed obligations (reported by the wiring rule)
         blocks = sw.step_blocks(m.schedule)
         if blocks is None:
             raise AnalysisError(f'{q}: loop over time steps not found')
